@@ -41,7 +41,9 @@ use serde::{Deserialize, Serialize};
 use serde_json::{json, Value};
 use starky::config::StarkConfig;
 use starky::proof::{StarkProofWithPublicInputs, StarkProofWithPublicInputsTarget};
-use starky::prover::prove;
+use starky::prover::{prove, prove_with_commitment};
+use plonky2::fri::oracle::PolynomialBatch;
+use plonky2::fri::prover::final_poly_coeff_len;
 use starky::recursive_verifier::{add_virtual_stark_proof_with_pis, set_stark_proof_with_pis_target, verify_stark_proof_circuit};
 use starky::verifier::verify_stark_proof;
 
@@ -564,6 +566,29 @@ impl<'a, const COLS: usize, const PIS: usize> Run<'a, COLS, PIS> {
         r
     }
 
+    /// Adversarial prover for the fixed-length mode: a satisfying trace of 2^(max_bits - k) rows is committed at rate
+    /// `rate_bits + k`, so every oracle has exactly the LDE size, Merkle path lengths, reduction layers and (zero-padded)
+    /// final polynomial of a proof of 2^max_bits rows; the transcript observes the circuit's configuration. Only public
+    /// functions of the library are used (`PolynomialBatch::from_values`, `prove_with_commitment`).
+    fn prove_short_at_higher_rate(&self, trace: &[Vec<F>], pis: &[F], k: usize) -> Result<anyhow::Result<Proof>, String> {
+        let cfg = &self.mode.config;
+        let circuit_params = cfg.fri_params(self.mode.max_bits);
+        let mut cfg2 = cfg.clone();
+        cfg2.fri_config.rate_bits += k;
+        cfg2.fri_config.reduction_strategy = FriReductionStrategy::Fixed(circuit_params.reduction_arity_bits.clone());
+        let cols = trace_columns(trace, COLS);
+        let final_len = final_poly_coeff_len(circuit_params.degree_bits, &circuit_params.reduction_arity_bits);
+        catch(|| {
+            let mut timing = TimingTree::default();
+            let tc = PolynomialBatch::<F, PC, D>::from_values(cols.clone(), cfg2.fri_config.rate_bits, false, cfg2.fri_config.cap_height, &mut timing, None);
+            let mut ch = Challenger::<F, <PC as GenericConfig<D>>::Hasher>::new();
+            ch.observe_elements(pis);
+            cfg.observe(&mut ch);
+            ch.observe_cap(&tc.merkle_tree.cap);
+            prove_with_commitment(&self.stark, &cfg2, &cols, &tc, None, None, &mut ch, pis, Some(final_len), None, &mut timing)
+        })
+    }
+
     /// Honest proof for a trace of 2^m rows (`padded`: with the circuit's FRI parameters, as the
     /// multi-degree mode requires). Cached.
     fn honest(&mut self, m: usize, padded: bool) -> Result<&Honest, String> {
@@ -919,7 +944,10 @@ impl<'a, const COLS: usize, const PIS: usize> Run<'a, COLS, PIS> {
             }
             // ---- honest proof, wrong degree_bits told to the circuit ----
             15 | 16 => {
-                let p = self.honest(m, multi)?.proof.clone();
+                let (p, constant_trace) = {
+                    let h = self.honest(m, multi)?;
+                    (h.proof.clone(), h.trace.iter().all(|r| *r == h.trace[0]))
+                };
                 let mut cands: Vec<usize> = sup.iter().copied().filter(|&t| t != m).collect();
                 let class;
                 let told = if !cands.is_empty() && spec.told % 4 != 3 {
@@ -931,7 +959,38 @@ impl<'a, const COLS: usize, const PIS: usize> Run<'a, COLS, PIS> {
                     cands.retain(|&t| t != m && !sup.contains(&t));
                     cands[frac(spec.told, cands.len())]
                 };
-                self.judge(&p, told, class, false, spec, idx, st)
+                // A constant trace makes every constraint vanish identically and every opening valid at every point, so
+                // nothing in the proof depends on the trace length: the verdict for a wrong `degree_bits` is reported,
+                // not asserted (the native verifier accepts the same proof, so "accept" is not a disagreement).
+                let class = if constant_trace { format!("shape:degenerate_constant_trace:{}", class) } else { class.to_string() };
+                self.judge(&p, told, &class, false, spec, idx, st)
+            }
+            // ---- fixed-length circuit, proof of a SHORTER satisfying trace committed at a higher rate, and the shorter
+            //      degree_bits told to the circuit (the native verifier recovers the full length from the proof's shape) ----
+            17 | 18 if !multi && max_bits >= 2 => {
+                let k = 1 + frac(spec.told, max_bits - 1);
+                let m2 = max_bits - k;
+                let lim = StarkLimits {
+                    min_log_n: m2,
+                    max_log_n: m2,
+                    ..self.lim
+                };
+                let el = elaborate_stark(&self.case.stark, &lim);
+                if el.def.constraints != self.stark.def.constraints || el.log_n != m2 {
+                    st.label("short_trace_not_available");
+                    return Ok(());
+                }
+                let constant_trace = el.trace.iter().all(|r| *r == el.trace[0]);
+                match self.prove_short_at_higher_rate(&el.trace, &el.pis, k) {
+                    Ok(Ok(p)) => {
+                        let class = if constant_trace { "shape:degenerate_constant_trace:shorter_trace_at_higher_rate" } else { "shorter_trace_at_higher_rate" };
+                        self.judge(&p, m2, class, false, spec, idx, st)
+                    }
+                    Ok(Err(_)) | Err(_) => {
+                        st.label("shorter_trace_at_higher_rate: prover refused");
+                        Ok(())
+                    }
+                }
             }
             // ---- shape edit of one container of the proof (reported, not asserted) ----
             19 => {
